@@ -497,6 +497,27 @@ impl ClientTaskHarness {
         true
     }
 
+    /// poll only the tasks of callers (requests, handle calls): what they send is queued for the
+    /// client task, which is not polled
+    pub fn settle_callers(&mut self) -> bool {
+        let mut polls = 0u64;
+        loop {
+            let mut any = false;
+            for (_, p) in self.pending.iter_mut() {
+                if p.poll_if_woken() {
+                    any = true;
+                    polls += 1;
+                }
+            }
+            if polls > CLIENT_POLL_BUDGET {
+                return false;
+            }
+            if !any {
+                return true;
+            }
+        }
+    }
+
     pub fn now_ms(&self) -> u64 {
         (Instant::now() - self.t0).as_millis() as u64
     }
